@@ -1,0 +1,55 @@
+//go:build verif
+
+package regclient
+
+// Contracts checked by /verif (govc). Comment-only file; not part of normal builds.
+
+// ---- C14: copy transfers only what the target lacks (trace shape of BlobCopy) ----
+// Ghost bookkeeping of what one BlobCopy call has done so far. The contracts on the four client
+// methods below only record that bookkeeping (they assume nothing about behaviour).
+//@ ghost $headDone bool
+//@ ghost $headOK bool
+//@ ghost $mountDone bool
+//@ ghost $mountOK bool
+//@ ghost $gets int
+//@ ghost $puts int
+//@ func (*RegClient).BlobHead(ctx, r, d) (b, err)
+//@   trusted ghost bookkeeping only
+//@   effect $headDone = true
+//@   effect $headOK = (err == nil)
+//@ func (*RegClient).BlobMount(ctx, refSrc, refTgt, d) (err)
+//@   trusted ghost bookkeeping only
+//@   effect $mountDone = true
+//@   effect $mountOK = (err == nil)
+//@ func (*RegClient).BlobGet(ctx, r, d) (b, err)
+//@   trusted ghost bookkeeping only
+//@   effect $gets = $gets + 1
+//@ func (*RegClient).BlobPut(ctx, r, d, rdr) (dOut, err)
+//@   trusted ghost bookkeeping only
+//@   effect $puts = $puts + 1
+
+// the source is read only if the repositories differ, the target HEAD failed, and (on the same
+// registry) the mount was attempted and refused
+//@ callsite (*RegClient).BlobGet(ctx, r, d)
+//@   prop C14
+//@   name BlobGet/BlobCopy
+//@   in ~
+//@   infunc \)\.BlobCopy$
+//@   requires different-repository: !ref.EqualRepository(caller.refSrc, caller.refTgt)
+//@   requires target-lacks-blob: $headDone && !$headOK
+//@   requires mount-refused-first: ref.EqualRegistry(caller.refSrc, caller.refTgt) ==> $mountDone && !$mountOK
+//@   requires reads-from-source: r == caller.refSrc
+//@ callsite (*RegClient).BlobMount(ctx, refSrc, refTgt, d)
+//@   prop C14
+//@   name BlobMount/BlobCopy
+//@   in ~
+//@   infunc \)\.BlobCopy$
+//@   requires same-registry-only: ref.EqualRegistry(refSrc, refTgt) && $headDone && !$headOK
+//@ func (*RegClient).BlobCopy(ctx, refSrc, refTgt, d, opts) (err)
+//@   prop C14
+//@   entry-assume !$headDone && !$mountDone && !$mountOK && $gets == 0 && $puts == 0
+//@   ensures at-most-one-transfer: $gets <= 1 && $puts <= 1 && $puts <= $gets
+//@   ensures same-repository-moves-nothing: ref.EqualRepository(refSrc, refTgt) ==> $gets == 0 && $puts == 0 && !$mountDone && !$headDone
+//@   ensures present-moves-nothing: $headDone && $headOK ==> $gets == 0 && $puts == 0 && !$mountDone
+//@   ensures granted-mount-moves-nothing: $mountDone && $mountOK ==> $gets == 0 && $puts == 0
+//@   ensures mount-attempted-when-possible: $gets > 0 && ref.EqualRegistry(refSrc, refTgt) ==> $mountDone
